@@ -19,6 +19,7 @@ type env struct {
 	cf     cklib.Cfg
 	x      *cklib.Ctx
 	ev     *ckks.Evaluator
+	evk    rlwe.EvaluationKeySet
 	ci     bool
 	k      int // primes consumed per rescale (1, or 2 in the 128-bit precision mode)
 	maxLvl int
@@ -57,7 +58,8 @@ func newEnv(seed uint64, cf cklib.Cfg) *env {
 	if !e.ci {
 		gals = append(gals, x.Params.GaloisElementOrderTwoOrthogonalSubgroup())
 	}
-	e.ev = x.Evaluator(gals)
+	e.evk = rlwe.NewMemEvaluationKeySet(x.Rlk, x.GaloisKeys(gals)...)
+	e.resetEvaluator()
 	prec := x.Params.EncodingPrecision()
 	_ = prec
 
@@ -168,6 +170,9 @@ func newEnv(seed uint64, cf cklib.Cfg) *env {
 	}
 	return e
 }
+
+// resetEvaluator builds a fresh evaluator on the same keys.
+func (e *env) resetEvaluator() { e.ev = ckks.NewEvaluator(e.x.Params, e.evk) }
 
 // qAt returns the prime of the chain at `level` as a rational.
 func (e *env) qAt(level int) *big.Rat { return ratU(e.x.Params.Q()[level]) }
